@@ -5,6 +5,7 @@ import (
 	"fmt"
 	"os"
 	"sort"
+	"strings"
 	"testing"
 
 	intoto "github.com/in-toto/in-toto-golang/in_toto"
@@ -16,6 +17,7 @@ import (
 // C10 — verification is deterministic and leaves its inputs untouched.
 
 type c10Call struct {
+	NoInter bool `json:"no_inter,omitempty"` // this verification is not handed the caller's intermediate certificates
 	Params map[string]string `json:"params"`
 }
 
@@ -121,7 +123,15 @@ func c10Run(c c10Case, r *hx.Rec) error {
 	keys := b.VerifierKeyMap()
 	pems := b.IntermediatePEMs()
 	nonEmptyParams := false
+	callerInters := b.W.Intermediates
+	verdictFor := map[string]string{} // equal arguments, equal verdict - whatever was verified in between
 	for i, call := range c.Calls {
+		b.W.Intermediates = callerInters
+		if call.NoInter {
+			b.W.Intermediates = nil
+			r.Label("call-without-caller-intermediates")
+		}
+		pems = b.IntermediatePEMs()
 		params := copyParams(call.Params)
 		if len(params) > 0 {
 			nonEmptyParams = true
@@ -152,7 +162,18 @@ func c10Run(c c10Case, r *hx.Rec) error {
 			}
 		}
 		r.Label("verdict=%v", !fresh.Rejected())
+		pj, _ := json.Marshal(call.Params)
+		key := fmt.Sprintf("%s|%v", pj, call.NoInter)
+		if len(call.Params) == 0 {
+			key = fmt.Sprintf("{}|%v", call.NoInter)
+		}
+		v := fmt.Sprint(!fresh.Rejected())
+		if prev, ok := verdictFor[key]; ok && prev != v {
+			return fmt.Errorf("call %d: the same arguments (parameters %v, caller intermediates handed over: %v) were accepted=%s earlier in this history and are accepted=%s now", i, call.Params, !call.NoInter, prev, v)
+		}
+		verdictFor[key] = v
 	}
+	b.W.Intermediates = callerInters
 	if (len(c.Calls) >= 2 && (nonEmptyParams || c.Kind == "mixed")) || c.Kind == "surplus" || c.Kind == "nested" {
 		r.Nontrivial()
 	}
@@ -336,13 +357,48 @@ func c10Gen(t *rapid.T) c10Case {
 			"dup-cert:leaf1", "dup-cert-other:leaf1", "dup-cert-other:leaf1", "dup-key:" + c02A1, "bad-cert:leaf-expired", "unauthorised-key", "multisig:" + c02A2 + "+" + c02A1}
 		c.Mixed.Kinds = rapid.SliceOfNDistinct(rapid.SampledFrom(pool), 2, 5, rapid.ID[string]).Draw(t, "kinds")
 		n := rapid.IntRange(2, 4).Draw(t, "ncalls")
+		if c.Mixed.Intermediate == "caller" && rapid.Bool().Draw(t, "interhistory") {
+			// the verdict hinges on a certificate link that needs the caller's intermediate, and the
+			// history alternates between verifications without and with it
+			has := false
+			honest := 0
+			for _, k := range c.Mixed.Kinds {
+				if k == "honest-cert:leaf1" {
+					has = true
+				}
+				if strings.HasPrefix(k, "honest-") {
+					honest++
+				}
+			}
+			if !has {
+				c.Mixed.Kinds = append(c.Mixed.Kinds, "honest-cert:leaf1")
+				honest++
+			}
+			if honest > 3 {
+				honest = 3
+			}
+			c.Mixed.Threshold = honest
+			for i := 0; i < 4; i++ {
+				c.Calls = append(c.Calls, c10Call{Params: map[string]string{}, NoInter: i%2 == 0})
+			}
+			break
+		}
 		for i := 0; i < n; i++ {
-			c.Calls = append(c.Calls, c10Call{Params: map[string]string{}})
+			call := c10Call{Params: map[string]string{}}
+			if c.Mixed.Intermediate == "caller" {
+				call.NoInter = rapid.Bool().Draw(t, "nointer")
+			}
+			c.Calls = append(c.Calls, call)
 		}
 	case "direct":
 		h := func(d string) map[string]string { return map[string]string{"sha256": d} }
 		names := []string{"./a", "sub//b", "x/../c", "d/", "e", "sub/./f", "a", "c", "y/../a", "./c"}
 		pick := rapid.SliceOfNDistinct(rapid.SampledFrom(names), 1, 5, rapid.ID[string]).Draw(t, "names")
+		family := rapid.Bool().Draw(t, "family")
+		if family {
+			// one artifact under all its spellings (and nothing else)
+			pick = [][]string{{"./a", "a", "y/../a"}, {"x/../c", "c", "./c"}}[rapid.IntRange(0, 1).Draw(t, "whichfamily")]
+		}
 		item := hx.RLink{Materials: map[string]map[string]string{}, Products: map[string]map[string]string{}}
 		dst := hx.RLink{Materials: map[string]map[string]string{}, Products: map[string]map[string]string{}}
 		for _, n := range pick {
@@ -364,7 +420,13 @@ func c10Gen(t *rapid.T) c10Case {
 			MatRules:  [][]string{{"MATCH", "*", "WITH", "PRODUCTS", "FROM", "dst"}, {"ALLOW", "*"}},
 			ProdRules: [][]string{{"MATCH", "*", "WITH", "PRODUCTS", "FROM", "dst"}, {"DISALLOW", "sub/*"}, {rapid.SampledFrom([]string{"ALLOW", "DISALLOW"}).Draw(t, "closing"), "*"}},
 			Links:     map[string]hx.RLink{"item": item, "dst": dst}}
-		if rapid.IntRange(0, 3).Draw(t, "onlydisallow") == 0 {
+		if family {
+			// the destination holds the artifact once, under its clean name, with the digest of ONE of the spellings
+			clean := map[string]string{"./a": "a", "x/../c": "c"}[pick[0]]
+			dst.Products = map[string]map[string]string{clean: h(rapid.SampledFrom([]string{"aa", "bb", "cc"}).Draw(t, "familydigest"))}
+			c.Direct.Links["dst"] = dst
+			c.Direct.ProdRules = [][]string{{"MATCH", "*", "WITH", "PRODUCTS", "FROM", "dst"}, {"DISALLOW", "*"}}
+		} else if rapid.IntRange(0, 3).Draw(t, "onlydisallow") == 0 {
 			// nothing consumes anything: whatever the spellings, a recorded product is still there for DISALLOW *
 			c.Direct.MatRules = [][]string{{"ALLOW", "*"}}
 			c.Direct.ProdRules = [][]string{{"DISALLOW", "*"}}
